@@ -1,11 +1,66 @@
 import EpdVerif.Drivers.Dsl
 import EpdVerif.Gen.Epd7in5
-/-! model of `src/epd7in5/mod.rs` (STUB: programs not yet transcribed) -/
+/-! model of `src/epd7in5/mod.rs` -/
 namespace EpdVerif.Drivers.Epd7in5
 open EpdVerif
 open EpdVerif.Gen.Epd7in5
 
+def W : Act := .wait IS_BUSY_LOW
+
+def sendResolution : List Act :=
+  [.cmd Command.TconResolution, .data [shr8 WIDTH 8], .data [u8 WIDTH],
+   .data [shr8 HEIGHT 8], .data [u8 HEIGHT]]
+
+def init : List Act :=
+  [.reset 10000 10000] ++
+  cmdData Command.PowerSetting [0x37, 0x00] ++
+  cmdData Command.PanelSetting [0xCF, 0x08] ++
+  cmdData Command.BoosterSoftStart [0xC7, 0xCC, 0x28] ++
+  [.cmd Command.PowerOn, .delayUs 5000, W] ++
+  cmdData Command.PllControl [0x3C] ++
+  cmdData Command.TemperatureCalibration [0x00] ++
+  cmdData Command.VcomAndDataIntervalSetting [0x77] ++
+  cmdData Command.TconSetting [0x22] ++
+  sendResolution ++
+  cmdData Command.VcmDcSetting [0x1E] ++
+  cmdData Command.FlashMode [0x03] ++
+  [W]
+
+/-- one iteration of the inner `for _ in 0..4` loop of `update_frame`: the data byte built
+    from the two top bits of `temp`, and `temp` after the two `<<= 1` (u8 shifts) -/
+def expandStep (temp : UInt8) : UInt8 × UInt8 :=
+  let data : UInt8 := if temp &&& 0x80 == 0 then 0x00 else 0x03
+  let data := data <<< 4
+  let temp := temp <<< 1
+  let data := data ||| (if temp &&& 0x80 == 0 then 0x00 else 0x03)
+  let temp := temp <<< 1
+  (data, temp)
+
+/-- the four `send_data(&[data])` calls made for one input byte -/
+def expandByte (b : UInt8) : List Act :=
+  let s0 := expandStep b
+  let s1 := expandStep s0.2
+  let s2 := expandStep s1.2
+  let s3 := expandStep s2.2
+  [.data [s0.1], .data [s1.1], .data [s2.1], .data [s3.1]]
+
+def updateFrame (b : Bytes) : List Act :=
+  [W, .cmd Command.DataStartTransmission1] ++ b.flatMap expandByte
+
 def prog (_f : Feat) (_d : DState) : Op → Option (List Act)
+  | .new => some init
+  | .wake => some init
+  | .sleep => some ([W, .cmd Command.PowerOff, W] ++ cmdData Command.DeepSleep [0xA5])
+  | .upd b => some (updateFrame b)
+  | .part _ _ _ _ _ => some [.panic]
+  | .disp => some [W, .cmd Command.DisplayRefresh]
+  | .updisp b => some (updateFrame b ++ [.cmd Command.DisplayRefresh])
+  | .clear =>
+    some ([W] ++ sendResolution ++
+      [.cmd Command.DataStartTransmission1, .rep 0x33 (WIDTH / 8 * HEIGHT * 4)])
+  | .bg c => some [.upd (fun d => { d with bg := c })]
+  | .lut _ => some [.panic]
+  | .wait => some [W]
   | _ => none
 
 def panel (f : Feat) : Panel :=
